@@ -1026,6 +1026,10 @@ func (s *scanner) ScanBytes(accept func(b byte) bool) error {
 		if err == io.EOF && !empty {
 			return nil
 		}
+		if err != nil && err != io.EOF {
+			// a latched source error: refill will not deliver more data
+			return err
+		}
 		if s.used == 0 {
 			if err == nil {
 				err = io.EOF
